@@ -21,6 +21,7 @@ func checkC12(c *Ctx) {
 	ruleNormProv(c)
 	ruleNormWS(c)
 	ruleNormReader(c)
+	ruleNulView(c)
 	ruleSameMachine(c)
 	ruleSpecBoundsFor(c, "C12")
 	c.Rule("TRAV", "Explicit-stack traversals whose visiting order is observable pop from the end and push children by descending index (a stack; a queue would visit breadth-first): containers are visited in document order, so 'first definition' means first in source.")
